@@ -59,6 +59,8 @@ package raft
 //@   ensures [C19.snapshot-monotone] r.snaps.index >= old(r.snaps.index)
 //@   ensures [C19.order] result0 == success ==> r.log.gprev <= r.snaps.index && r.snaps.index <= r.lastLogIndex && r.commitIndex <= r.lastLogIndex && r.log.glast == r.lastLogIndex
 //@   ensures [C19+C08.nodeinv-config] result0 == success ==> CfgWF(r.storage)
+// the snapshot-store invariants the next install / TakeSnapshot relies on are re-established at every normal exit
+//@   ensures [C10+C09.store-invariants-kept] result0 != unexpectedErr ==> PubInv(r.snaps.dir) && AllBelow(r.snaps) && UsedOK(r.snaps)
 // a snapshot beyond the end of the log is repaired on restart (openStorage, C10.recover-contiguous)
 //@   crash_inv [C10.install-window] gfault || r.log.gprev <= r.snaps.index
 
